@@ -39,6 +39,8 @@ def generate(prop, rng, index, tier):
                                  if rng.random() < 0.6 else {})} for d, n in dims},
         "var": {"name": "elev", "dtype": rng.choice(["i2", "f4", "f8"]), "fill": rng.choice([None, -1, -9999])},
         "crs": rng.random() < 0.4,
+        # the data model of the template file (what the grid was exported as) is not the writer's business
+        "format": rng.choice(["NETCDF4", "NETCDF4", "NETCDF4_CLASSIC", "NETCDF3_CLASSIC", "NETCDF3_64BIT_OFFSET"]),
     }
     for d, n in dims:
         c = template["coords"][d]
@@ -119,7 +121,7 @@ def generate(prop, rng, index, tier):
 def _make_template(path, t):
     import numpy
     from netCDF4 import Dataset
-    with Dataset(path, "w") as ds:
+    with Dataset(path, "w", format=t.get("format") or "NETCDF4") as ds:
         for d, n in t["dims"]:
             ds.createDimension(d, n)
         for d, n in t["dims"]:
